@@ -40,6 +40,10 @@ type c19Variant struct {
 	ALPN   bool          `json:"alpn"`   // SupportedProtocols on both sides
 	Mutual bool          `json:"mutual"` // client certificate requested (cert kinds)
 	Sess   int           `json:"sess"`   // 0 none, 1 session stores (full handshake), 2 abbreviated handshake
+	// versions the options of the exported side allow: 0 = DTLS 1.2 only; 1 = dual stack (the session is
+	// negotiated as 1.2 against a 1.2-only peer and resumed with the same options); 2 = the session is
+	// negotiated with 1.2-only options and resumed with options that allow DTLS 1.3 only
+	Vers int `json:"vers"`
 }
 
 type c19Store struct {
@@ -176,6 +180,30 @@ func c19WithFeatures(v c19Variant, cid int, srtp, mki, alpn, mutual bool, sess i
 
 	return v
 }
+
+// c19WithVers sets the version dimension (certificate kinds only: a PSK-only configuration
+// never offers DTLS 1.3).
+func c19WithVers(v c19Variant, vers int) c19Variant {
+	if v.Kind == "psk" {
+		vers = 0
+	}
+	v.Vers = vers
+	v.Name = fmt.Sprintf("%s/vers%d", v.Name, vers)
+
+	return v
+}
+
+// c19AllowDTLS13 widens a configuration to the given version range; the suite list gets a DTLS 1.3
+// suite, otherwise the effective range is cut back to the versions of the listed suites.
+func c19AllowDTLS13(cfg *dtlsConfig, minV, maxV protocol.Version) *dtlsConfig {
+	cp := *cfg
+	cp.MinVersion, cp.MaxVersion = minV, maxV
+	cp.CipherSuites = append(append([]CipherSuiteID{}, cfg.CipherSuites...), TLS_AES_128_GCM_SHA256)
+
+	return &cp
+}
+
+func c19VersionN(v protocol.Version) int { return int(v.Major)<<8 | int(v.Minor) }
 
 func c19b(b bool) int {
 	if b {
@@ -505,6 +533,13 @@ type c19Case struct {
 	ExpAfter   []c19Exp `json:"exp_after"`
 	ExpPeer    []c19Exp `json:"exp_peer"`
 
+	// the Conn between resumeWithConfig and its first Handshake/Read/Write
+	CfgMin       int       `json:"cfg_min"` // version range of its handshake configuration
+	CfgMax       int       `json:"cfg_max"`
+	EarlyStateOK bool      `json:"early_state_ok"` // ConnectionState() available
+	EarlySRTP    c19SRTP   `json:"early_srtp"`
+	StartWire    []c19Wire `json:"start_wire"` // what HandshakeContext of the resumed Conn put on the wire
+
 	ParamsAfter c19PState `json:"params_after"` // ConnectionState() of the resumed connection (after traffic)
 	SRTPBefore  c19SRTP   `json:"srtp_before"`
 	SRTPAfter   c19SRTP   `json:"srtp_after"`
@@ -545,11 +580,22 @@ func c19RunMain(t *testing.T, jb c19Job) c19Case {
 		c19Quiet(l0.Server)
 	}
 	ccfg, scfg := c19Configs(jb.v, stores)
+	if jb.v.Vers == 1 {
+		// the exported side is a dual-stack endpoint, its peer speaks DTLS 1.2 only
+		if jb.side == "client" {
+			ccfg = c19AllowDTLS13(ccfg, protocol.Version1_2, protocol.Version1_3)
+		} else {
+			scfg = c19AllowDTLS13(scfg, protocol.Version1_2, protocol.Version1_3)
+		}
+	}
 	lab := c19Establish(t, ccfg, scfg)
 	self, peer := lab.peer(jb.side), lab.other(jb.side)
 	selfCfg := ccfg
 	if jb.side == "server" {
 		selfCfg = scfg
+	}
+	if jb.v.Vers == 2 {
+		selfCfg = c19AllowDTLS13(selfCfg, protocol.Version1_3, protocol.Version1_3)
 	}
 	self.startReader()
 	peer.startReader()
@@ -642,8 +688,21 @@ func c19RunMain(t *testing.T, jb c19Job) c19Case {
 		return res
 	}
 	rp := &vPeer{Name: self.Name, EP: newEP, Conn: resumed, Done: make(chan struct{})}
+	res.CfgMin, res.CfgMax = c19VersionN(resumed.handshakeConfig.MinVersion), c19VersionN(resumed.handshakeConfig.MaxVersion)
+	_, res.EarlyStateOK = resumed.ConnectionState()
+	res.EarlySRTP = c19SRTPOf(resumed)
+	startIdx := lab.Net.count()
 	res.StartErr = vErrString(c19Start(rp))
+	res.StartWire = c19WireOf(lab.Net.since(startIdx), self.Name, 0)
 	res.After = c19Internal(resumed)
+	if res.StartErr != "ok" {
+		// not in the finished state: nothing below applies
+		c19Quiet(rp)
+		c19Quiet(self)
+		c19Quiet(peer)
+
+		return res
+	}
 	rp.startReader()
 	synctest.Wait()
 
@@ -778,6 +837,9 @@ func TestVerifC19Main(t *testing.T) {
 	for x := 0; x < n; x++ {
 		sv := suites[rng.intn(len(suites))]
 		v := c19WithFeatures(sv, rng.intn(3), rng.chance(50), rng.chance(50), rng.chance(50), rng.chance(50), rng.intn(3))
+		if rng.chance(25) {
+			v = c19WithVers(v, 1+rng.intn(2))
+		}
 		i, j := rng.intn(6), rng.intn(6)
 		if rng.chance(10) {
 			i += 20 + rng.intn(70) // beyond the 64-record replay window
@@ -787,6 +849,19 @@ func TestVerifC19Main(t *testing.T) {
 		}
 		jobs = append(jobs, c19Job{v: v, i: i, j: j, k: rng.intn(4), m: rng.intn(4), side: sides[rng.intn(2)],
 			fresh: !rng.chance(15), inflight: rng.chance(30)})
+	}
+	// (d) the options of the exported side allow DTLS 1.3: dual stack (the session was negotiated as
+	// 1.2 against a 1.2-only peer) or 1.3 only; certificate kinds, both sides, plain and decorated
+	for _, idx := range []int{7, 10, 12, 13, 15} {
+		for _, side := range sides {
+			for vers := 1; vers <= 2; vers++ {
+				jobs = append(jobs, c19Job{v: c19WithVers(c19WithFeatures(suites[idx], 0, false, false, false, false, 0), vers),
+					i: rng.intn(3), j: rng.intn(3), k: 2, m: 2, side: side, fresh: true})
+				jobs = append(jobs, c19Job{v: c19WithVers(c19WithFeatures(suites[idx], 1, true, true, true, idx%2 == 0, 1), vers),
+					i: 1 + rng.intn(3), j: 1 + rng.intn(3), k: 1 + rng.intn(3), m: 1 + rng.intn(3), side: side, fresh: rng.chance(70),
+					inflight: rng.chance(40)})
+			}
+		}
 	}
 	c19RSA()
 	vGetCreds()
@@ -868,6 +943,9 @@ type c19Corrupt struct {
 	P2X     bool       `json:"p2x"` // a record written by the peer was delivered by the resumed side
 	WErrX   string     `json:"werr_x"`
 	WErrP   string     `json:"werr_p"`
+	K       int        `json:"k"`         // writes attempted by the resumed (corrupted) side
+	Post    []c19Wire  `json:"post_wire"` // every record it put on the wire
+	WErrs   []string   `json:"werrs"`     // result of each of those writes
 	Hex     string     `json:"hex,omitempty"`
 	Panic   string     `json:"panic,omitempty"`
 }
@@ -876,7 +954,8 @@ type c19Corrupt struct {
 // the untouched peer's own (good) exported state, then tries one record in each direction.
 // Must run inside a bubble.
 func c19Trial(b *c19Base, name string, mut []byte, input *c19PState) (res c19Corrupt) {
-	res = c19Corrupt{Kind: "corrupt", Base: b.v.Name, Side: b.side, Mut: name, Diff: []string{}, Input: input}
+	res = c19Corrupt{Kind: "corrupt", Base: b.v.Name, Side: b.side, Mut: name, Diff: []string{}, Input: input,
+		Post: []c19Wire{}, WErrs: []string{}}
 	var cleanup []func()
 	defer func() {
 		if r := recover(); r != nil {
@@ -933,6 +1012,15 @@ func c19Trial(b *c19Base, name string, mut []byte, input *c19PState) (res c19Cor
 	pump.step()
 	res.WErrP = c19Write(pc, []byte("p2x"))
 	pump.step()
+	// two more records from the resumed side: which numbers does it use?
+	res.K = 3
+	res.WErrs = append(res.WErrs, res.WErrX)
+	for x := 1; x < res.K; x++ {
+		res.WErrs = append(res.WErrs, c19Write(xc, []byte(fmt.Sprintf("x2p-%d", x))))
+		pump.step()
+	}
+	// (parsed with the CID length the resumed side itself writes with)
+	res.Post = append(res.Post, c19WireOf(net.since(0), b.side, len(dec.remoteConnectionID))...)
 	for _, r := range pp.reads() {
 		if string(r) == "x2p" {
 			res.X2P = true
@@ -1148,6 +1236,30 @@ func TestVerifC19Corrupt(t *testing.T) {
 			m[pos] = val
 			muts = append(muts, mutn{fmt.Sprintf("byte:%d:%d", pos, val), m, nil})
 		}
+		// the byte that encodes the sequence number, set to each smaller value (numbers the exporting
+		// connection has used): found by encoding the same state with the next number
+		next := b.orig
+		next.sequenceNumber++
+		if rawNext, err := next.MarshalBinary(); err == nil && len(rawNext) == len(b.raw) {
+			pos := -1
+			for x := range b.raw {
+				if b.raw[x] != rawNext[x] {
+					if pos >= 0 {
+						pos = -2
+
+						break
+					}
+					pos = x
+				}
+			}
+			if pos >= 0 && uint64(b.raw[pos]) == b.orig.sequenceNumber {
+				for val := 0; val < int(b.raw[pos]); val++ {
+					m := append([]byte(nil), b.raw...)
+					m[pos] = byte(val)
+					muts = append(muts, mutn{fmt.Sprintf("seqbyte:%d:%d", pos, val), m, nil})
+				}
+			}
+		}
 		st, stIn := c19Structured(b)
 		names := make([]string, 0, len(st))
 		for k := range st {
@@ -1252,6 +1364,8 @@ type c19Extra struct {
 	MarshalErr string `json:"marshal_err"`
 	DecodeErr  string `json:"decode_err"`
 	ResumeErr  string `json:"resume_err"` // resuming from the State object itself (no bytes involved)
+	ResumeCfg  string `json:"resume_cfg_err"` // resumeWithConfig(State object, configuration that lists the custom suite)
+	EKMErr     string `json:"ekm_err"`        // ExportKeyingMaterial on the live connection's State
 	Panic      string `json:"panic"`
 	At         string `json:"at"`
 	LocalEpoch int    `json:"local_epoch"`
@@ -1296,6 +1410,22 @@ func TestVerifC19Custom(t *testing.T) {
 				res.DecodeErr = vErrString(dec.UnmarshalBinary(raw))
 				_, err = st.generateInternalState()
 				res.ResumeErr = vErrString(err)
+				_, err = st.ExportKeyingMaterial("EXTRACTOR-dtls_srtp", nil, 60)
+				res.EKMErr = vErrString(err)
+				selfCfg := ccfg
+				if side == "server" {
+					selfCfg = scfg
+				}
+				_ = self.EP.Close()
+				synctest.Wait()
+				newEP := lab.Net.endpoint(self.Name)
+				rc, err := resumeWithConfig(&st, newEP, vAddr(peer.Name), selfCfg)
+				res.ResumeCfg = vErrString(err)
+				if err == nil {
+					c19Quiet(&vPeer{Name: self.Name, EP: newEP, Conn: rc, Done: make(chan struct{})})
+				} else {
+					_ = newEP.Close()
+				}
 			}()
 			c19Quiet(self)
 			c19Quiet(peer)
@@ -1306,11 +1436,24 @@ func TestVerifC19Custom(t *testing.T) {
 
 // c19ProbeLogger calls ConnectionState() from every trace line of the handshake, i.e. at every
 // point where the state machine is between two steps (a deterministic stand-in for a concurrent
-// caller of the public API).
+// caller of the public API), and records what it returned next to the internal state.
 type c19ProbeLogger struct {
 	conn   func() *Conn
 	mu     sync.Mutex
-	panics []c19Extra
+	probes []c19Probe
+}
+
+type c19Probe struct {
+	Kind    string     `json:"kind"`
+	Variant string     `json:"variant"`
+	Side    string     `json:"side"`
+	At      string     `json:"at"`
+	State   c19IState  `json:"state"`   // internal state at the probe
+	Outcome int        `json:"outcome"` // 0 = a State was returned, 1 = not available, 2 = panic
+	Got     *c19PState `json:"got,omitempty"`
+	Panic   string     `json:"panic,omitempty"`
+	Done    bool       `json:"established"` // (summary line) both handshakes completed
+	Probes  int        `json:"probes"`      // (summary line) probes taken
 }
 
 func (l *c19ProbeLogger) probe(at string) {
@@ -1324,16 +1467,28 @@ func (l *c19ProbeLogger) probe(at string) {
 		return
 	}
 	c.lock.RUnlock()
-	defer func() {
-		if r := recover(); r != nil {
-			common := dtlsstate.CommonState(c.state)
-			l.mu.Lock()
-			l.panics = append(l.panics, c19Extra{Kind: "midhandshake", Panic: fmt.Sprint(r), At: at,
-				LocalEpoch: int(common.LocalEpoch()), LocalSeqs: len(common.LocalSequenceNumber)})
-			l.mu.Unlock()
+	pr := c19Probe{Kind: "midhandshake", At: at, State: c19Internal(c)}
+	func() {
+		defer func() {
+			if r := recover(); r != nil {
+				pr.Outcome, pr.Panic = 2, fmt.Sprint(r)
+			}
+		}()
+		st, ok := c.ConnectionState()
+		if ok {
+			got := c19Public(&st)
+			pr.Got = &got
+		} else {
+			pr.Outcome = 1
 		}
 	}()
-	_, _ = c.ConnectionState()
+	// (another goroutine of the connection may have moved on in between: keep stable probes only)
+	if fmt.Sprint(c19Internal(c)) != fmt.Sprint(pr.State) {
+		return
+	}
+	l.mu.Lock()
+	l.probes = append(l.probes, pr)
+	l.mu.Unlock()
 }
 
 func (l *c19ProbeLogger) Trace(msg string)                  { l.probe(msg) }
@@ -1351,66 +1506,90 @@ type c19ProbeFactory struct{ l *c19ProbeLogger }
 
 func (f *c19ProbeFactory) NewLogger(string) logging.LeveledLogger { return f.l }
 
-// TestVerifC19MidHandshake: ConnectionState() while the handshake is still running (outside the
-// letter of C19, which speaks of established connections): generateState indexes
-// LocalSequenceNumber[LocalEpoch] without the bounds check generateState13 has.
+// TestVerifC19MidHandshake: ConnectionState() while the handshake is still running - in
+// particular between fsm12.prepare's SetLocalEpoch(1) and the first record of that epoch, where
+// LocalSequenceNumber[LocalEpoch] does not exist yet. It must return a State or "not available",
+// never panic; what it returns is compared with the model's generateState.
 func TestVerifC19MidHandshake(t *testing.T) {
 	out := newVOut(t)
-	for _, side := range []string{"client", "server"} {
-		side := side
-		var found []c19Extra
-		established := false
-		vBubble(t, func(t *testing.T) {
-			ccfg, scfg := vPSKPair(TLS_PSK_WITH_AES_128_GCM_SHA256)
-			var lab *vLab
-			pl := &c19ProbeLogger{}
-			pl.conn = func() *Conn {
-				if lab == nil {
-					return nil
-				}
-
-				return lab.peer(side).Conn
-			}
-			if side == "client" {
-				ccfg.LoggerFactory = &c19ProbeFactory{pl}
-			} else {
-				scfg.LoggerFactory = &c19ProbeFactory{pl}
-			}
-			n := newVNet()
-			lab = &vLab{Net: n}
-			cep, sep := n.endpoint("client"), n.endpoint("server")
-			cc, err := clientWithConfig(cep, vAddr("server"), ccfg)
-			if err != nil {
-				t.Fatal(err)
-			}
-			sc, err := serverWithConfig(sep, vAddr("client"), scfg)
-			if err != nil {
-				t.Fatal(err)
-			}
-			lab.Client = &vPeer{Name: "client", EP: cep, Conn: cc, Done: make(chan struct{})}
-			lab.Server = &vPeer{Name: "server", EP: sep, Conn: sc, Done: make(chan struct{})}
-			lab.Pump = &vPump{net: n}
-			for _, p := range []*vPeer{lab.Client, lab.Server} {
-				go func(p *vPeer) {
-					p.Err = p.Conn.HandshakeContext(context.Background())
-					close(p.Done)
-				}(p)
-			}
-			lab.Pump.run(lab.bothDone, 10*time.Second)
-			established = lab.established()
-			pl.mu.Lock()
-			found = append(found, pl.panics...)
-			pl.mu.Unlock()
-			c19Quiet(lab.Client)
-			c19Quiet(lab.Server)
-		})
-		if len(found) == 0 {
-			out.emit(c19Extra{Kind: "midhandshake", Side: side, Name: fmt.Sprintf("established=%v", established)})
+	suites := c19Suites()
+	c19RSA()
+	vGetCreds()
+	variants := []c19Variant{
+		c19WithFeatures(suites[0], 0, false, false, false, false, 0),
+		c19WithFeatures(suites[7], 1, true, true, true, true, 1),
+		c19WithFeatures(suites[5], 0, false, false, true, false, 2), // abbreviated: the client owns the final flight
+		c19WithFeatures(suites[15], 2, true, false, false, false, 0),
+	}
+	if vIsThorough() {
+		variants = nil
+		for _, sv := range suites {
+			variants = append(variants, c19WithFeatures(sv, 0, false, false, false, false, 0),
+				c19WithFeatures(sv, 1, true, true, true, true, 1), c19WithFeatures(sv, 0, false, false, true, false, 2))
 		}
-		for _, f := range found {
-			f.Side = side
-			f.Name = fmt.Sprintf("established=%v", established)
-			out.emit(f)
+	}
+	for _, v := range variants {
+		for _, side := range []string{"client", "server"} {
+			v, side := v, side
+			var found []c19Probe
+			established := false
+			vBubble(t, func(t *testing.T) {
+				stores := [2]*c19Store{{m: map[string]Session{}}, {m: map[string]Session{}}}
+				if v.Sess == 2 {
+					c0, s0 := c19Configs(v, stores)
+					l0 := c19Establish(t, c0, s0)
+					c19Quiet(l0.Client)
+					c19Quiet(l0.Server)
+				}
+				ccfg, scfg := c19Configs(v, stores)
+				var lab *vLab
+				pl := &c19ProbeLogger{}
+				pl.conn = func() *Conn {
+					if lab == nil {
+						return nil
+					}
+
+					return lab.peer(side).Conn
+				}
+				if side == "client" {
+					ccfg.LoggerFactory = &c19ProbeFactory{pl}
+				} else {
+					scfg.LoggerFactory = &c19ProbeFactory{pl}
+				}
+				n := newVNet()
+				l := &vLab{Net: n}
+				cep, sep := n.endpoint("client"), n.endpoint("server")
+				cc, err := clientWithConfig(cep, vAddr("server"), ccfg)
+				if err != nil {
+					t.Fatal(err)
+				}
+				sc, err := serverWithConfig(sep, vAddr("client"), scfg)
+				if err != nil {
+					t.Fatal(err)
+				}
+				l.Client = &vPeer{Name: "client", EP: cep, Conn: cc, Done: make(chan struct{})}
+				l.Server = &vPeer{Name: "server", EP: sep, Conn: sc, Done: make(chan struct{})}
+				l.Pump = &vPump{net: n}
+				lab = l
+				for _, p := range []*vPeer{lab.Client, lab.Server} {
+					go func(p *vPeer) {
+						p.Err = p.Conn.HandshakeContext(context.Background())
+						close(p.Done)
+					}(p)
+				}
+				lab.Pump.run(lab.bothDone, 10*time.Second)
+				established = lab.established()
+				pl.mu.Lock()
+				found = append(found, pl.probes...)
+				pl.mu.Unlock()
+				c19Quiet(lab.Client)
+				c19Quiet(lab.Server)
+			})
+			out.emit(c19Probe{Kind: "midsummary", Variant: v.Name, Side: side, Done: established, Probes: len(found)})
+			for _, f := range found {
+				f.Side, f.Variant = side, v.Name
+				out.emit(f)
+			}
 		}
 	}
 }
@@ -1536,4 +1715,303 @@ func TestVerifC19VerifyConn(t *testing.T) {
 			out.emit(res)
 		}
 	}
+}
+
+// ---------------------------------------------------------------- export near the sequence number limit
+
+type c19Limit struct {
+	Kind       string    `json:"kind"`
+	Variant    string    `json:"variant"`
+	Side       string    `json:"side"`
+	A          int       `json:"a"` // the counter is moved to 2^48 - a
+	I          int       `json:"i"` // writes attempted before the export
+	K          int       `json:"k"` // writes attempted by the resumed connection
+	St0        []uint64  `json:"st0"`
+	Before     c19IState `json:"before"`
+	Peer       c19IState `json:"peer"`
+	Pre        []c19Wire `json:"pre"`
+	Post       []c19Wire `json:"post"`
+	PreErrs    []string  `json:"pre_errs"`
+	PostErrs   []string  `json:"post_errs"`
+	ExportOK   bool      `json:"export_ok"`
+	MarshalErr string    `json:"marshal_err"`
+	DecodeErr  string    `json:"decode_err"`
+	ResumeErr  string    `json:"resume_err"`
+	StartErr   string    `json:"start_err"`
+	Resumed    bool      `json:"resumed"`
+	PeerGot    []string  `json:"peer_got"` // payloads the peer read after the counter was moved
+	P2XSent    bool      `json:"p2x_sent"`
+	P2X        bool      `json:"p2x"`
+}
+
+// TestVerifC19Limit: a connection whose record counter is close to 2^48 (moved there by the test:
+// reaching it takes 2^48 writes) is written to, exported and resumed. Writes beyond 2^48 - 1 fail and
+// still advance the counter; a counter above 2^48 is not resumable; no record number is used twice.
+func TestVerifC19Limit(t *testing.T) {
+	out := newVOut(t)
+	suites := c19Suites()
+	vGetCreds()
+	variants := []c19Variant{
+		c19WithFeatures(suites[0], 0, false, false, false, false, 0),
+		c19WithFeatures(suites[5], 0, false, false, false, false, 0),
+		c19WithFeatures(suites[11], 1, false, false, false, false, 0),
+	}
+	if vIsThorough() {
+		variants = nil
+		for _, sv := range suites {
+			if sv.Kind != "rsa" {
+				variants = append(variants, c19WithFeatures(sv, 0, false, false, false, false, 0),
+					c19WithFeatures(sv, 1, false, false, false, false, 0))
+			}
+		}
+	}
+	for _, v := range variants {
+		for _, side := range []string{"client", "server"} {
+			for a := 0; a <= 4; a++ {
+				for i := 0; i <= 3; i++ {
+					v, side, a, i := v, side, a, i
+					res := c19Limit{Kind: "limit", Variant: v.Name, Side: side, A: a, I: i, K: 3,
+						Pre: []c19Wire{}, Post: []c19Wire{}, PreErrs: []string{}, PostErrs: []string{}, PeerGot: []string{}}
+					vBubble(t, func(t *testing.T) { c19RunLimit(t, v, side, &res) })
+					out.emit(res)
+				}
+			}
+		}
+	}
+}
+
+func c19RunLimit(t *testing.T, v c19Variant, side string, res *c19Limit) {
+	t.Helper()
+	stores := [2]*c19Store{{m: map[string]Session{}}, {m: map[string]Session{}}}
+	ccfg, scfg := c19Configs(v, stores)
+	lab := c19Establish(t, ccfg, scfg)
+	self, peer := lab.peer(side), lab.other(side)
+	selfCfg := ccfg
+	if side == "server" {
+		selfCfg = scfg
+	}
+	self.startReader()
+	peer.startReader()
+	synctest.Wait()
+	common := dtlsstate.CommonState(self.Conn.state)
+	epoch := common.LocalEpoch()
+	atomic.StoreUint64(&common.LocalSequenceNumber[epoch], 1<<48-uint64(res.A)) //nolint:gosec
+	res.St0 = c19Internal(self.Conn).LocalSeq
+	peerCIDLen := len(dtlsstate.CommonState(peer.Conn.state).LocalConnectionID())
+	mark := lab.Net.count()
+	for x := 0; x < res.I; x++ {
+		res.PreErrs = append(res.PreErrs, c19Write(self.Conn, []byte(fmt.Sprintf("pre-%d", x))))
+		lab.Pump.step()
+	}
+	res.Pre = append(res.Pre, c19WireOf(lab.Net.since(mark), self.Name, peerCIDLen)...)
+	res.Before = c19Internal(self.Conn)
+	res.Peer = c19Internal(peer.Conn)
+	exportIdx := lab.Net.count()
+	teardown := func(rp *vPeer) {
+		res.PeerGot = append(res.PeerGot, c19Strs(peer.reads())...)
+		if rp != nil {
+			c19Quiet(rp)
+		}
+		c19Quiet(self)
+		c19Quiet(peer)
+	}
+	st, ok := self.Conn.ConnectionState()
+	res.ExportOK = ok
+	if !ok {
+		teardown(nil)
+
+		return
+	}
+	raw, err := st.MarshalBinary()
+	res.MarshalErr = vErrString(err)
+	dec := &State{}
+	err = dec.UnmarshalBinary(raw)
+	res.DecodeErr = vErrString(err)
+	if err != nil {
+		teardown(nil)
+
+		return
+	}
+	_ = self.EP.Close()
+	synctest.Wait()
+	newEP := lab.Net.endpoint(self.Name)
+	resumed, err := resumeWithConfig(dec, newEP, vAddr(peer.Name), selfCfg)
+	res.ResumeErr = vErrString(err)
+	if err != nil {
+		_ = newEP.Close()
+		teardown(nil)
+
+		return
+	}
+	rp := &vPeer{Name: self.Name, EP: newEP, Conn: resumed, Done: make(chan struct{})}
+	res.StartErr = vErrString(c19Start(rp))
+	if res.StartErr != "ok" {
+		teardown(rp)
+
+		return
+	}
+	res.Resumed = true
+	rp.startReader()
+	synctest.Wait()
+	lab.Pump.next = exportIdx
+	for x := 0; x < res.K; x++ {
+		res.PostErrs = append(res.PostErrs, c19Write(resumed, []byte(fmt.Sprintf("post-%d", x))))
+		lab.Pump.step()
+	}
+	res.P2XSent = c19Write(peer.Conn, []byte("p2x")) == "ok"
+	lab.Pump.step()
+	for _, r := range rp.reads() {
+		if string(r) == "p2x" {
+			res.P2X = true
+		}
+	}
+	res.Post = append(res.Post, c19WireOf(lab.Net.since(exportIdx), self.Name, peerCIDLen)...)
+	teardown(rp)
+}
+
+// ---------------------------------------------------------------- the final flight is lost, its owner is exported
+
+type c19Final struct {
+	Kind      string `json:"kind"`
+	Variant   string `json:"variant"`
+	Owner     string `json:"owner"`  // the side that owns the final flight (and is exported)
+	Export    bool   `json:"export"` // false: control run, the original connection stays
+	Dropped   int    `json:"dropped"`
+	OwnerDone bool   `json:"owner_done"` // the owner's handshake completed (it had sent the flight)
+	ResumeErr string `json:"resume_err"`
+	StartErr  string `json:"start_err"`
+	PeerDone  bool   `json:"peer_done"` // the untouched peer's handshake completed within the time given
+	PeerErr   string `json:"peer_err"`
+	O2P       bool   `json:"o2p"` // a record of the owner reached the peer
+	P2O       bool   `json:"p2o"`
+	// records the owner side put on the wire after the drop (epoch, seq, content type)
+	OwnerWire []c19Wire `json:"owner_wire"`
+	PeerRetx  int       `json:"peer_retransmissions"` // datagrams of the peer after the drop
+}
+
+// TestVerifC19FinalFlight: the side that sends the last flight of the handshake (the server; the
+// client after an abbreviated handshake) is established as soon as it has sent it. That datagram
+// is lost; the peer retransmits its own flight and needs the final flight again. The control run
+// keeps the original connection, the other run exports and resumes the owner in between.
+func TestVerifC19FinalFlight(t *testing.T) {
+	out := newVOut(t)
+	suites := c19Suites()
+	vGetCreds()
+	type spec struct {
+		v     c19Variant
+		owner string
+	}
+	specs := []spec{
+		{c19WithFeatures(suites[0], 0, false, false, false, false, 0), "server"},
+		{c19WithFeatures(suites[7], 1, true, false, true, false, 0), "server"},
+		{c19WithFeatures(suites[5], 0, false, false, false, false, 2), "client"},
+	}
+	for _, sp := range specs {
+		for _, export := range []bool{false, true} {
+			sp, export := sp, export
+			res := c19Final{Kind: "finalflight", Variant: sp.v.Name, Owner: sp.owner, Export: export, OwnerWire: []c19Wire{}}
+			vBubble(t, func(t *testing.T) { c19RunFinal(t, sp.v, sp.owner, export, &res) })
+			out.emit(res)
+		}
+	}
+}
+
+func c19RunFinal(t *testing.T, v c19Variant, ownerName string, export bool, res *c19Final) {
+	t.Helper()
+	stores := [2]*c19Store{{m: map[string]Session{}}, {m: map[string]Session{}}}
+	if v.Sess == 2 {
+		c0, s0 := c19Configs(v, stores)
+		l0 := c19Establish(t, c0, s0)
+		c19Quiet(l0.Client)
+		c19Quiet(l0.Server)
+	}
+	ccfg, scfg := c19Configs(v, stores)
+	lab := newLab(t, ccfg, scfg)
+	owner, peer := lab.peer(ownerName), lab.other(ownerName)
+	ownerCfg := ccfg
+	if ownerName == "server" {
+		ownerCfg = scfg
+	}
+	dropIdx := -1
+	// lose the owner's first datagram that starts with ChangeCipherSpec: the final flight
+	lab.Pump.Policy = func(d vDatagram) (vAction, int) {
+		if d.From == ownerName && dropIdx < 0 && len(d.Data) > 0 && d.Data[0] == byte(protocol.ContentTypeChangeCipherSpec) {
+			dropIdx = d.Idx
+			res.Dropped++
+
+			return vDrop, 0
+		}
+
+		return vPass, 0
+	}
+	lab.Pump.run(func() bool { return owner.handshakeDone() && dropIdx >= 0 }, 20*time.Second)
+	res.OwnerDone = owner.handshakeDone() && owner.Err == nil
+	active := owner
+	if res.OwnerDone && export {
+		st, ok := owner.Conn.ConnectionState()
+		if !ok {
+			t.Fatalf("ConnectionState not available on the established owner")
+		}
+		raw, err := st.MarshalBinary()
+		if err != nil {
+			t.Fatalf("MarshalBinary: %v", err)
+		}
+		dec := &State{}
+		if err = dec.UnmarshalBinary(raw); err != nil {
+			t.Fatalf("UnmarshalBinary: %v", err)
+		}
+		_ = owner.EP.Close()
+		synctest.Wait()
+		newEP := lab.Net.endpoint(ownerName)
+		resumed, err := resumeWithConfig(dec, newEP, vAddr(peer.Name), ownerCfg)
+		res.ResumeErr = vErrString(err)
+		if err == nil {
+			active = &vPeer{Name: ownerName, EP: newEP, Conn: resumed, Done: make(chan struct{})}
+			res.StartErr = vErrString(c19Start(active))
+		} else {
+			_ = newEP.Close()
+		}
+	}
+	if res.OwnerDone {
+		active.startReader()
+		// the peer retransmits on its timer (1 s, doubling): give it several rounds
+		lab.Pump.run(peer.handshakeDone, 40*time.Second)
+		res.PeerDone = peer.handshakeDone() && peer.Err == nil
+		if peer.handshakeDone() {
+			res.PeerErr = vErrString(peer.Err)
+		} else {
+			res.PeerErr = "handshake still waiting for the final flight"
+		}
+		if res.PeerDone {
+			peer.startReader()
+			c19Write(active.Conn, []byte("o2p"))
+			lab.Pump.step()
+			c19Write(peer.Conn, []byte("p2o"))
+			lab.Pump.step()
+			for _, r := range peer.reads() {
+				if string(r) == "o2p" {
+					res.O2P = true
+				}
+			}
+			for _, r := range active.reads() {
+				if string(r) == "p2o" {
+					res.P2O = true
+				}
+			}
+		}
+		if dropIdx >= 0 {
+			after := lab.Net.since(dropIdx + 1)
+			res.OwnerWire = append(res.OwnerWire, c19WireOf(after, ownerName, len(dtlsstate.CommonState(peer.Conn.state).LocalConnectionID()))...)
+			for _, d := range after {
+				if d.From == peer.Name {
+					res.PeerRetx++
+				}
+			}
+		}
+	}
+	if active != owner {
+		c19Quiet(active)
+	}
+	c19Quiet(owner)
+	c19Quiet(peer)
 }
